@@ -15,12 +15,12 @@ theorem C05_numpy_mask (w : Window) (ts : List Int) : numpyMask w ts = specMask 
   unfold numpyMask specMask inWindow
   cases s <;> cases e <;> simp <;> induction ts <;> simp_all
 
-/-- The two successive pandas filters keep exactly the in-window rows. -/
-theorem C05_pandasMask_eq (w : Window) (rows : List (Nat × Int)) :
-    pandasMask w rows =
+/-- The two successive pandas filters (the mechanism before the repair of F-22) keep exactly the in-window rows. -/
+theorem C05_pandasMaskOld_eq (w : Window) (rows : List (Nat × Int)) :
+    pandasMaskOld w rows =
       rows.map fun r => (rows.filter fun q => inWindow w q.2).any fun q => q.1 == r.1 := by
   obtain ⟨s, e⟩ := w
-  cases s <;> cases e <;> simp [pandasMask, inWindow, List.filter_filter, Bool.and_comm]
+  cases s <;> cases e <;> simp [pandasMaskOld, inWindow, List.filter_filter, Bool.and_comm]
 
 /-- With distinct row labels a label identifies its row. -/
 theorem C05_label_unique (rows : List (Nat × Int)) (hnd : (rows.map (·.1)).Nodup)
@@ -36,11 +36,16 @@ theorem C05_label_unique (rows : List (Nat × Int)) (hnd : (rows.map (·.1)).Nod
     · exact absurd h (hnd.1 q hq)
     · exact ih hnd.2 hq hr
 
-/-- PandasStream mechanism (two successive filters, then membership of surviving row labels) =
-    the property's window, provided the row labels are distinct. -/
-theorem C05_pandas_mask (w : Window) (rows : List (Nat × Int)) (hnd : (rows.map (·.1)).Nodup) :
+/-- PandasStream mechanism (a positional mask narrowed by each comparison) = the property's window, for ANY row labels. -/
+theorem C05_pandas_mask (w : Window) (rows : List (Nat × Int)) :
     pandasMask w rows = specMask w (rows.map (·.2)) := by
-  rw [C05_pandasMask_eq]
+  unfold pandasMask; exact C05_numpy_mask w _
+
+/-- The mechanism before the repair of F-22 (two successive filters, then membership of surviving row labels) =
+    the property's window, PROVIDED the row labels are distinct. -/
+theorem C05_pandas_mask_old (w : Window) (rows : List (Nat × Int)) (hnd : (rows.map (·.1)).Nodup) :
+    pandasMaskOld w rows = specMask w (rows.map (·.2)) := by
+  rw [C05_pandasMaskOld_eq]
   unfold specMask
   simp only [List.map_map]
   apply List.map_congr_left
@@ -71,12 +76,12 @@ theorem C05_xarray_mask (w : Window) (ts : List Int) : xarrayMask w ts = specMas
 
 /-- Consequently all front ends select the same rows. -/
 theorem C05_frontends_agree (w : Window) (ts : List Int) (labels : List Nat)
-    (hl : labels.length = ts.length) (hnd : labels.Nodup) :
+    (hl : labels.length = ts.length) :
     numpyMask w ts = pandasMask w (labels.zip ts) ∧ numpyMask w ts = xarrayMask w ts := by
   have h1 : (labels.zip ts).map (·.1) = labels := List.map_fst_zip (by omega)
   have h2 : (labels.zip ts).map (·.2) = ts := List.map_snd_zip (by omega)
   refine ⟨?_, ?_⟩
-  · rw [C05_numpy_mask, C05_pandas_mask w (labels.zip ts) (by rw [h1]; exact hnd), h2]
+  · rw [C05_numpy_mask, C05_pandas_mask w (labels.zip ts), h2]
   · rw [C05_numpy_mask, C05_xarray_mask]
 
 /-- Selecting rows with the mask keeps exactly the in-window rows, in original order. -/
@@ -106,12 +111,13 @@ theorem C05_selectRows_zip {α : Type} (mask : List Bool) (xs : List α) (ts : L
         simp only [List.zip_cons_cons, List.filterMap_cons]
         cases m <;> simp [ih xs ts h']
 
-/-- The distinct-labels hypothesis of `C05_pandas_mask` is needed: with a duplicated row label
-    `index.isin` also marks the out-of-window row carrying the same label. -/
-example : pandasMask ⟨none, some 15⟩ [(0, 10), (0, 20)] = [true, true] := by decide
-theorem C05_pandas_needs_unique :
-    pandasMask ⟨none, some 15⟩ [(0, 10), (0, 20)]
+/-- Regression witness of the fixed finding F-22: the distinct-labels hypothesis of `C05_pandas_mask_old` is needed — with a
+    duplicated row label `index.isin` also marks the out-of-window row carrying the same label; the repaired mechanism does not. -/
+example : pandasMaskOld ⟨none, some 15⟩ [(0, 10), (0, 20)] = [true, true] := by decide
+theorem C05_pandas_old_bad_witness :
+    pandasMaskOld ⟨none, some 15⟩ [(0, 10), (0, 20)]
       ≠ specMask ⟨none, some 15⟩ ([(0, 10), (0, 20)].map (·.2)) := by decide
+example : pandasMask ⟨none, some 15⟩ [(0, 10), (0, 20)] = [true, false] := by decide
 
 /-- Non-vacuity: half-open window `[10, 20)`; a row exactly on `starting` is included, a row exactly
     on `ending` is excluded, in every front end. -/
